@@ -325,6 +325,17 @@ func (c *gen) expr(depth int, guarded bool) (*Expr, bool) {
 	if c.cfg.Code && !c.noCode && c.inRecover == 0 && depth < c.cfg.MaxDepth && c.chance(6, "shadowbait") {
 		return c.shadowBait(), false
 	}
+	if c.cfg.Profile == "errors" && c.chance(6, "eofbait") {
+		// ( !. / !t u ) in either order: where the input goes on with t, end of input and the
+		// inverted terminal are expected at one offset ( !"t" sorts before !. , EOF is listed last)
+		t := c.consuming()
+		a := &Expr{K: KNot, Sub: []*Expr{{K: KAny}}}
+		b := &Expr{K: KSeq, Sub: []*Expr{{K: KNot, Sub: []*Expr{t}}, c.consuming()}}
+		if c.chance(50, "eofbaitorder") {
+			return &Expr{K: KChoice, Sub: []*Expr{a, b}}, true
+		}
+		return &Expr{K: KChoice, Sub: []*Expr{b, a}}, true
+	}
 	if c.cfg.Code && !c.noCode && c.inRecover == 0 && depth < c.cfg.MaxDepth && c.chance(5, "nillabelbait") {
 		return c.nilLabelBait(), false
 	}
@@ -797,6 +808,10 @@ func (c *gen) recover(depth int, guarded bool) (*Expr, bool) {
 		if !dup {
 			labels = append(labels, l)
 		}
+	}
+	if c.chance(10, "duplabel") {
+		// a label may be listed twice ( //{F1, F2, F1} ): the list is a set
+		labels = append(labels, labels[0])
 	}
 	saveH := c.handled
 	c.handled = append(append([]string{}, saveH...), labels...)
